@@ -34,6 +34,7 @@ def run(ctx):
     ctx.do(rule_strictness)
     ctx.do(rule_forward)
     ctx.do(rule_version_in_scope)
+    ctx.do(rule_version_bases)
     ctx.do(rule_version_constants)
     ctx.do(rule_only_21_mechanisms)
     ctx.do(rule_detect)
@@ -559,3 +560,34 @@ def rule_version_in_scope(ctx, rule_id="C14.version-in-scope", only_callees=None
         run.floor(rule_id, 300)
     elif only_modules is not None:
         run.floor(rule_id, 20)
+
+
+def rule_version_bases(ctx, rule_id="C14.version-in-scope"):
+    """Which version's rules apply to a library object is decided by its CLASS: isinstance(obj, _STIXBase20 / _STIXBase21)
+    (versioning, the toplevel-extension mechanism, marking precision).  Every object class defined under stix2/v20 has the 2.0
+    marker base in its resolved MRO and every one under stix2/v21 the 2.1 marker -- an import of the version-neutral base of
+    the same name (`from ..base import _RelationshipObject` instead of `from .base import ...`) silently takes it away."""
+    run = ctx.run
+    prog = ctx.prog
+    n = 0
+    sbase = prog.cls("stix2.base::_STIXBase")
+    for ver, marker in (("v20", "stix2.v20.base::_STIXBase20"), ("v21", "stix2.v21.base::_STIXBase21")):
+        mk = prog.cls(marker)
+        for c in sorted(prog.classes.values(), key=lambda c_: c_.id):
+            if not c.module.name.startswith("stix2.%s." % ver) or getattr(c, "parent_func", None) is not None:
+                continue
+            mro = c.mro or []
+            if sbase not in mro or c is mk:
+                continue
+            if c.module.name.endswith(".base"):
+                continue
+            n += 1
+            run.check(mk in mro, rule_id, key(c.module.relpath, c.name, "version-marker-base"),
+                      "a class of stix2/%s does not derive from %s: the library decides by isinstance() which version's rules an "
+                      "object is under -- this one is versioned with the other version's timestamp granularity, and is not "
+                      "recognised as %s content" % (ver, marker.split("::")[1], "2.0" if ver == "v20" else "2.1"), file=c.module.relpath,
+                      line=c.node.lineno, function=c.name, expected="%s in the MRO" % marker.split("::")[1],
+                      found=[getattr(b, "id", str(b)) for b in mro][:6])
+    if n < 100:
+        raise AnalysisError("fewer than 100 versioned object classes found (%d)" % n)
+    return n
